@@ -14,10 +14,10 @@ Proof.
 Qed.
 
 (* ------------------------------------------------------------------ repaired variant: independent of oob *)
-Lemma hydrogen_fix_indep : forall G xyz oob1 oob2 rs ri,
-  hydrogen G xyz oob1 h_fix rs ri = hydrogen G xyz oob2 h_fix rs ri.
+Lemma hydrogen_fix_indep : forall K G xyz oob1 oob2 rs ri,
+  hydrogen K G xyz oob1 h_fix rs ri = hydrogen K G xyz oob2 h_fix rs ri.
 Proof.
-  intros G xyz oob1 oob2 rs ri. unfold hydrogen. fold dres. destruct ri as [|pi].
+  intros K G xyz oob1 oob2 rs ri. unfold hydrogen. fold dres. destruct ri as [|pi].
   - destruct (r_skip (nth 0 rs dres)) eqn:S; [reflexivity|].
     apply skip_false_some in S as (n & ca & c & o & En & _). now rewrite En.
   - destruct (r_skip (nth (S pi) rs dres)) eqn:S; [reflexivity|].
@@ -25,15 +25,15 @@ Proof.
     destruct (r_c (nth pi rs dres)) as [pc|], (r_o (nth pi rs dres)) as [po|]; reflexivity.
 Qed.
 
-Lemma hydrogens_fix_indep : forall G xyz oob1 oob2 rs,
-  hydrogens G xyz oob1 h_fix rs = hydrogens G xyz oob2 h_fix rs.
+Lemma hydrogens_fix_indep : forall K G xyz oob1 oob2 rs,
+  hydrogens K G xyz oob1 h_fix rs = hydrogens K G xyz oob2 h_fix rs.
 Proof. intros. unfold hydrogens. apply map_ext. intros. apply hydrogen_fix_indep. Qed.
 
-Lemma energy_indep : forall G xyz oob1 oob2 hs rs d a,
+Lemma energy_indep : forall K G xyz oob1 oob2 hs rs d a,
   r_skip (nth d rs dres) = false -> r_skip (nth a rs dres) = false ->
-  ks_energy_h G xyz oob1 hs rs d a = ks_energy_h G xyz oob2 hs rs d a.
+  ks_energy_h K G xyz oob1 hs rs d a = ks_energy_h K G xyz oob2 hs rs d a.
 Proof.
-  intros G xyz oob1 oob2 hs rs d a Sd Sa. unfold ks_energy_h. fold dres.
+  intros K G xyz oob1 oob2 hs rs d a Sd Sa. unfold ks_energy_h. fold dres.
   apply skip_false_some in Sd as (n & ca & c & o & En & _).
   apply skip_false_some in Sa as (n' & ca' & c' & o' & _ & _ & Ec & Eo).
   rewrite En, Ec, Eo. reflexivity.
@@ -60,12 +60,12 @@ Proof.
 Qed.
 
 (* with the repaired hydrogen placement the result of a frame is a function of that frame alone *)
-Lemma ks_fix_frame_local : forall G thr ca2 init rs xyz oob1 oob2,
-  kabsch_sander_frame (mkKS G h_fix thr ca2) init rs xyz oob1 =
-  kabsch_sander_frame (mkKS G h_fix thr ca2) init rs xyz oob2.
+Lemma ks_fix_frame_local : forall K G thr ca2 init rs xyz oob1 oob2,
+  kabsch_sander_frame (mkKS K G h_fix thr ca2) init rs xyz oob1 =
+  kabsch_sander_frame (mkKS K G h_fix thr ca2) init rs xyz oob2.
 Proof.
-  intros. unfold kabsch_sander_frame. cbn [ks_G ks_hv].
-  rewrite (hydrogens_fix_indep G xyz oob1 oob2 rs). apply ks_loop_ext.
+  intros. unfold kabsch_sander_frame. cbn [ks_K ks_G ks_hv].
+  rewrite (hydrogens_fix_indep K G xyz oob1 oob2 rs). apply ks_loop_ext.
   intros d a Sd Sa. now apply energy_indep.
 Qed.
 
@@ -80,7 +80,7 @@ Definition w_xyz : list vec :=
    (0, 0, 0); (50, 120, 0); (150, 200, 0); (150, 320, 0);
    (600, 0, 100); (500, 100, 0); (430, 0, 0); (307, 0, 0)].
 Definition nominal (hv : hvariant) : ks_params :=
-  mkKS 1024 hv (fst ks_energy_cutoff * SC / snd ks_energy_cutoff) ks_minimal_ca_distance2.
+  mkKS gen_consts 1024 hv (fst ks_energy_cutoff * SC / snd ks_energy_cutoff) ks_minimal_ca_distance2.
 
 Definition bonds_of (r : option (list slots)) : list (list nat) :=
   match r with Some l => map (fun s => map fst (slot_list s)) l | None => [] end.
